@@ -54,6 +54,11 @@ def handle (line : String) : String :=
   | .ok c =>
     let out := match jstr c "kind" with
       | "match" => doMatch c
+      | "bind" =>
+        (match (do let p ← jJ c "p"; let b ← jJ c "bs"; pure (p, b) : Except String (J × J)) with
+         | .ok (p, .obj bs) => Json.mkObj [("ok", J.toJson (subst bs p))]
+         | .ok (p, _) => Json.mkObj [("ok", J.toJson p)]
+         | .error e => Json.mkObj [("err", Json.str ("input:" ++ e))])
       | "loc" => handleLoc c
       | "pidx" => handlePidx c
       | "terms" => handleTerms c
